@@ -70,14 +70,15 @@ def internal_shapes_arg(spec):
     return d or None
 
 
-def build_funcs(spec, hook=None, cache=None):
+def build_funcs(spec, hook=None, cache=None, declared_sizes=None):
+    """declared_sizes: sizes used ONLY for the internal_shape declared on the PipeFunc (the bodies return spec["sizes"])"""
     pfs = []
     for k, fn in enumerate(spec["funcs"]):
         ishape = tuple(spec["sizes"][a] for a in fn["internal"])
         body = terms.make_function(fn["name"], list(fn["params"]), len(fn["outs"]), ishape, hook=hook, returns_none=bool(fn.get("none")))
         kw = {}
         if fn["internal"] and fn.get("ishape_via", "map") == "pipefunc":
-            kw["internal_shape"] = ishape
+            kw["internal_shape"] = ishape if declared_sizes is None else tuple(declared_sizes[a] for a in fn["internal"])
         if cache is not None:
             kw["cache"] = bool(cache[k]) if isinstance(cache, (list, tuple)) else bool(cache)
         pfs.append(PipeFunc(body, fn["outs"][0] if len(fn["outs"]) == 1 else tuple(fn["outs"]), mapspec=spec_str(fn), **kw))
